@@ -63,6 +63,7 @@ def encodings(rng):
         "scalar vs nested list": lambda c, t: (lambda a, b: (a, [[b]]))(*pick(["u", "v", "w"], c)),
         # each label as the one-cell slice of ITS OWN column of a results frame (`row[["y_true"]]`, `row[["y_pred"]]`); a column that is renamed midway
         "1x1 frames with their own column names": lambda c, t: (lambda a, b: (pd.DataFrame({"y_true" if t % 7 else "label": [a]}), pd.DataFrame({"y_pred": [b]})))(*pick([0, 1, 2], c)),
+        "1x1 matrices": lambda c, t: (lambda a, b: (np.matrix([[a]]), np.matrix([[b]])))(*pick([0, 1, 2], c)),      # (an ndarray subclass that stays 2-D under ravel)
         "1x1 frame vs 1-d array": lambda c, t: (lambda a, b: (pd.DataFrame({"y": [a]}), np.array([b])))(*pick([0, 1, 2], c)),
     }
 
